@@ -131,11 +131,12 @@ def own_checks(ops, answers):
         if a.startswith("panic(") or a == "bad-op":
             bad.append((i, "the workload case did not complete: " + a))
             continue
-        if toks[1] in ("det", "inverse", "length", "qr"):
+        if toks[1] in ("det", "inverse", "length", "qr", "alloc"):
             ms = re.findall(r"bits=(\S+) again=(\S+)", a)
             if not ms or any(x != y for x, y in ms):
                 bad.append((i, "the same computation repeated in the same process (on buffers at other "
-                               "addresses) gave different bits"))
+                               "addresses / on an equal object with another allocation history) gave "
+                               "different answers"))
         elif toks[1] == "naneq":
             if not re.fullmatch(r"nan@\d+ f+", a):
                 bad.append((i, "a container holding a NaN compared equal (to itself or to an equal copy)"))
